@@ -55,6 +55,10 @@ Value& TUPExpression::value(Context & ctx) const
     Value& val = a->value(ctx); /* execute expression */
     if (val.type() == Type::NO_TYPE)
       throw RuntimeError(EXC_RT_COMPOUND_OPAQUE);
+    /* nesting and tables are not allowed, also when the type of the item is
+     * only known now */
+    if (val.type().level() > 0 || val.type() == Type::ROWTYPE)
+      throw RuntimeError(EXC_RT_FUNC_ARG_TYPE_S, KEYWORDS[oper]);
     if (val.lvalue())
       items.push_back(val.clone());
     else
